@@ -200,9 +200,18 @@ func forIndexShapes(r *ev.Run, b shapeBounds, fn func(si *ShapeImage)) {
 
 func quickBounds(r *ev.Run) shapeBounds {
 	if r.Thorough() {
-		return shapeBounds{MaxN: 9, MaxNIndex: 13, DeepTable: []int{10}, DeepIndex: []int{15, 16}, PageSize: 512}
+		return shapeBounds{MaxN: 10, MaxNIndex: 15, DeepTable: []int{11}, DeepIndex: []int{16, 17}, PageSize: 512}
 	}
 	return shapeBounds{MaxN: 7, MaxNIndex: 10, DeepTable: []int{8, 9}, DeepIndex: []int{15}, PageSize: 512}
+}
+
+// allBounds: the thorough tier repeats the enumeration (with the quick tier's
+// sizes) at page size 1024
+func allBounds(r *ev.Run) []shapeBounds {
+	if r.Thorough() {
+		return []shapeBounds{quickBounds(r), {MaxN: 7, MaxNIndex: 10, DeepTable: []int{8, 9}, DeepIndex: []int{15}, PageSize: 1024}}
+	}
+	return []shapeBounds{quickBounds(r)}
 }
 
 // project the logical rows of a table on a column list (names resolved like
